@@ -59,6 +59,36 @@ def _state_cells(tier, rng):
         out.append("states %d %s" % (st, " ".join(seq)))
     return [Case(l, "", "cells" if l.count(" ") == 2 else "sequence") for l in out]
 
+NT8 = ["TlsRecordType", "TlsHandshakeType", "TlsHeartbeatMessageType", "TlsCompressionID", "KeyUpdateRequest",
+       "TlsAlertSeverity", "TlsAlertDescription", "PskKeyExchangeMode", "SNIType", "CertificateStatusType",
+       "ECCurveType", "HashAlgorithm", "SignAlgorithm", "CtVersion"]
+NT16 = ["TlsVersion", "TlsExtensionType", "NamedGroup", "SignatureScheme"]
+CONV = {"TlsRecordType": 8, "TlsHandshakeType": 8, "TlsHeartbeatMessageType": 8, "TlsVersion": 16,
+        "TlsCompressionID": 8, "TlsCipherSuiteID": 16, "TlsExtensionType": 16}
+PROPS["C17"] = dict(
+    families=[], corpus_entries=[], small_scope=[],
+    spec={"@nt": "spec.@nt", "@conv": "spec.@conv", "@sig": "spec.@sig", "@keybits": "spec.@keybits"},
+    thorough_mult=1,
+)
+def _nt_cases(tier, rng):
+    from vlib import Case
+    def dom16():
+        if tier == "thorough": return range(65536)
+        s = set(range(0, 1100)) | set(range(0x7f00, 0x7f40)) | set(range(0xfd00, 0x10000)) | set(range(13100, 13200))
+        s |= set(range(0x0a00, 0xfb00, 0x101)) | {rng.randrange(65536) for _ in range(3000)}
+        return sorted(s)
+    out = []
+    for t in NT8:
+        out += ["@nt %s %d" % (t, n) for n in range(256)]
+    for t in NT16:
+        out += ["@nt %s %d" % (t, n) for n in dom16()]
+    for t, w in CONV.items():
+        out += ["@conv %s %d" % (t, n) for n in (range(256) if w == 8 else dom16())]
+    out += ["@sig %d" % n for n in dom16()]
+    out += ["@keybits %d" % n for n in dom16()]
+    return [Case(l, "", "registry") for l in out]
+
 def extra_cases(pid, tier, seed, rng):
+    if pid == "C17": return _nt_cases(tier, rng)
     if pid == "C08": return _state_cells(tier, rng)
     return []
